@@ -128,6 +128,30 @@ def p_custom(h, d):
     return bpp.finalize_wrapper(body(), cleanup)
 
 
+def p_custom_mon(h, d):
+    """p_custom with the monitored signal updated at fixed virtual times (monitor events interleave the points)."""
+    import asyncio
+
+    sig = d["sig"]
+    plan = p_custom(h, d)
+
+    def body():
+        loop = h.loop
+        handles = [loop.call_later(t, sig.put, k + 1) for k, t in enumerate((0.02, 0.07, 0.13, 0.22, 0.31, 0.38, 0.47, 0.61, 0.9))]
+        try:
+            return (yield from plan)
+        finally:
+            for hd in handles:
+                hd.cancel()
+
+    def scheduled():
+        # the timers must be created on the loop thread, at the first message
+        yield Msg("null")
+        return (yield from body())
+
+    return scheduled()
+
+
 def p_neverclose(h, d):
     det = d["det"]
 
@@ -274,6 +298,7 @@ CORPUS = {
     "list_scan": p_list_scan,
     "rel_scan": p_rel_scan,
     "custom": p_custom,
+    "custom_mon": p_custom_mon,
     "neverclose": p_neverclose,
     "norun": p_norun,
     "nested": p_nested,
